@@ -399,3 +399,6 @@ M("benign-message-text", ["C10", "C12", "C15"], "benign",
   [("yaep.c", "\"repeated declaration of term `%s'\"", "\"terminal `%s' is declared twice\"")])
 M("benign-free-tree-default", ["C13", "C16"], "benign",
   [("yaep.c", "  if (parse_free == NULL)\n    {\n      parse_free = parse_free_default;\n    }", "  if (!parse_free)\n    parse_free = parse_free_default;")])
+
+M("r13-revert-F23", ["C04"], "break",
+  [("yaep.c", "      if (node->val.anode.cost >= 0)\n	/* The node has been already traversed through another parent.  */\n	break;\n", "")], "traverse_pruned_translation/cost-toggle")
